@@ -10,16 +10,21 @@ Inductive mut :=
 | MDropColumn (t c:N)             (* column removed *)
 | MFlipNullable (t c:N)           (* nullability changed *)
 | MChangeType (t c:N) (y:ty)      (* type changed to a different type family *)
+| MChangeDefault (t c:N) (d:option dflt)   (* server default changed (added, removed, other value) *)
 | MAddCons (t:N) (k:cons)         (* index / named unique constraint added *)
 | MDropCons (t n:N)               (* ... removed *)
-| MChangeCons (t:N) (k:cons).     (* ... changed: same name and kind, other columns or unique flag *)
-(* outside this universe: server default changed, foreign key added / removed *)
+| MChangeCons (t:N) (k:cons)      (* ... changed: same name and kind, other columns or unique flag *)
+| MAddFk (t:N) (f:fk)             (* foreign key added *)
+| MDropFk (t n:N).                (* foreign key removed *)
+
 
 Definition on_table (t:N) (f:table->table) (S:schema) : schema := kupdate t_name t f S.
-Definition with_cols (f:list col->list col) (tb:table) : table := mkTable (t_name tb) (f (t_cols tb)) (t_cons tb).
-Definition with_cons (f:list cons->list cons) (tb:table) : table := mkTable (t_name tb) (t_cols tb) (f (t_cons tb)).
-Definition flip_null (x:col) : col := mkCol (c_name x) (c_ty x) (negb (c_null x)) (c_pk x).
-Definition set_ty (y:ty) (x:col) : col := mkCol (c_name x) y (c_null x) (c_pk x).
+Definition with_cols (f:list col->list col) (tb:table) : table := mkTable (t_name tb) (f (t_cols tb)) (t_cons tb) (t_fks tb).
+Definition with_cons (f:list cons->list cons) (tb:table) : table := mkTable (t_name tb) (t_cols tb) (f (t_cons tb)) (t_fks tb).
+Definition with_fks (f:list fk->list fk) (tb:table) : table := mkTable (t_name tb) (t_cols tb) (t_cons tb) (f (t_fks tb)).
+Definition flip_null (x:col) : col := mkCol (c_name x) (c_ty x) (negb (c_null x)) (c_pk x) (c_default x).
+Definition set_ty (y:ty) (x:col) : col := mkCol (c_name x) y (c_null x) (c_pk x) (c_default x).
+Definition set_default (d:option dflt) (x:col) : col := mkCol (c_name x) (c_ty x) (c_null x) (c_pk x) d.
 
 Definition apply_mut (m:mut) (A:schema) : schema :=
   match m with
@@ -29,9 +34,12 @@ Definition apply_mut (m:mut) (A:schema) : schema :=
   | MDropColumn t c => on_table t (with_cols (kremove c_name c)) A
   | MFlipNullable t c => on_table t (with_cols (kupdate c_name c flip_null)) A
   | MChangeType t c y => on_table t (with_cols (kupdate c_name c (set_ty y))) A
+  | MChangeDefault t c d => on_table t (with_cols (kupdate c_name c (set_default d))) A
   | MAddCons t k => on_table t (with_cons (fun ks => ks ++ [k])) A
   | MDropCons t n => on_table t (with_cons (kremove k_name n)) A
   | MChangeCons t k => on_table t (with_cons (kupdate k_name (k_name k) (fun _ => k))) A
+  | MAddFk t f => on_table t (with_fks (fun fs => fs ++ [f])) A
+  | MDropFk t n => on_table t (with_fks (kremove f_name n)) A
   end.
 
 Definition in_table (t:N) (A:schema) (p:table->bool) : bool := match kfind t_name t A with Some tb => p tb | None => false end.
@@ -44,22 +52,34 @@ Definition applicable (m:mut) (A:schema) : bool :=
   | MChangeType t c y => in_table t A (fun tb => match kfind c_name c (t_cols tb) with
                                                    | Some x => negb (column_types_match (c_ty x) y)     (* a different family *)
                                                    | None => false end)
+  | MChangeDefault t c d =>       (* the old and the new default differ after the documented normalisation *)
+      in_table t A (fun tb => match kfind c_name c (t_cols tb) with
+                              | Some x => negb (opt_eqb (list_eqb N.eqb) (option_map (fun o => norm_default (d_txt o)) (c_default x))
+                                                                         (option_map (fun o => norm_default (d_txt o)) d))
+                              | None => false end)
   | MAddCons t k => in_table t A (fun tb => negb (memN (k_name k) (keys k_name (t_cons tb))))
   | MDropCons t n => in_table t A (fun tb => memN n (keys k_name (t_cons tb)))
   | MChangeCons t k => in_table t A (fun tb => match kfind k_name (k_name k) (t_cons tb) with
                                                  | Some old => Bool.eqb (is_ix old) (is_ix k) && negb (sig_equal k old)
                                                  | None => false end)
+  (* a foreign key is what its signature says: adding one means a signature the table does not have yet, removing one
+     means its signature disappears *)
+  | MAddFk t f => in_table t A (fun tb => negb (memN (f_name f) (keys f_name (t_fks tb))) && negb (existsb (fk_sig_eqb f) (t_fks tb)))
+  | MDropFk t n => in_table t A (fun tb => match kfind f_name n (t_fks tb) with
+                                             | Some old => negb (existsb (fk_sig_eqb old) (kremove f_name n (t_fks tb)))
+                                             | None => false end)
   end.
-(* type changes are only looked for with compare_type on *)
-Definition enabled (g:cfg) (m:mut) : bool := match m with MChangeType _ _ _ => compare_type g | _ => true end.
+(* type changes are only looked for with compare_type on, default changes with compare_server_default on *)
+Definition enabled (g:cfg) (m:mut) : bool :=
+  match m with MChangeType _ _ _ => compare_type g | MChangeDefault _ _ _ => compare_server_default g | _ => true end.
 
 (* ---------------------------------------------------------------- what an operation is about *)
-Inductive objref := RTable (t:N) | RColumn (t c:N) | RCons (t n:N).
+Inductive objref := RTable (t:N) | RColumn (t c:N) | RCons (t n:N) | RFk (t n:N).
 Definition objref_eqb (a b:objref) : bool :=
   match a, b with
   | RTable t, RTable t' => N.eqb t t'
   | RColumn t c, RColumn t' c' => N.eqb t t' && N.eqb c c'
-  | RCons t n, RCons t' n' => N.eqb t t' && N.eqb n n'
+  | RCons t n, RCons t' n' | RFk t n, RFk t' n' => N.eqb t t' && N.eqb n n'
   | _, _ => false
   end.
 Definition op_target (o:op) : objref :=
@@ -67,17 +87,21 @@ Definition op_target (o:op) : objref :=
   | OpCreateTable t => RTable (t_name t)
   | OpDropTable t => RTable t
   | OpAddColumn t c => RColumn t (c_name c)
-  | OpDropColumn t c | OpAlterColumn t c _ _ _ _ => RColumn t c
+  | OpDropColumn t c | OpAlterColumn t c _ _ _ _ _ _ => RColumn t c
   | OpAddCons t k => RCons t (k_name k)
   | OpDropCons t _ n => RCons t n
+  | OpAddFk t f => RFk t (f_name f)
+  | OpDropFk t n => RFk t n
   end.
-Inductive opkind := KCreateTable | KDropTable | KAddColumn | KDropColumn | KAlterNullable | KAlterType
-                  | KAddIndex | KAddUq | KDropIndex | KDropUq.
+Inductive opkind := KCreateTable | KDropTable | KAddColumn | KDropColumn | KAlterNullable | KAlterType | KAlterDefault
+                  | KAddIndex | KAddUq | KDropIndex | KDropUq | KAddFk | KDropFk.
 Definition op_has_kind (o:op) (k:opkind) : bool :=
   match o, k with
   | OpCreateTable _, KCreateTable | OpDropTable _, KDropTable | OpAddColumn _ _, KAddColumn | OpDropColumn _ _, KDropColumn => true
-  | OpAlterColumn _ _ _ _ (Some _) _, KAlterNullable => true
-  | OpAlterColumn _ _ _ _ _ (Some _), KAlterType => true
+  | OpAlterColumn _ _ _ _ _ (Some _) _ _, KAlterNullable => true
+  | OpAlterColumn _ _ _ _ _ _ (Some _) _, KAlterType => true
+  | OpAlterColumn _ _ _ _ _ _ _ (Some _), KAlterDefault => true
+  | OpAddFk _ _, KAddFk | OpDropFk _ _, KDropFk => true
   | OpAddCons _ c, KAddIndex => is_ix c
   | OpAddCons _ c, KAddUq => is_uq c
   | OpDropCons _ ix _, KDropIndex => ix
@@ -90,9 +114,11 @@ Definition target (m:mut) : objref :=
   | MAddTable t => RTable (t_name t)
   | MDropTable n => RTable n
   | MAddColumn t c => RColumn t (c_name c)
-  | MDropColumn t c | MFlipNullable t c | MChangeType t c _ => RColumn t c
+  | MDropColumn t c | MFlipNullable t c | MChangeType t c _ | MChangeDefault t c _ => RColumn t c
   | MAddCons t k | MChangeCons t k => RCons t (k_name k)
   | MDropCons t n => RCons t n
+  | MAddFk t f => RFk t (f_name f)
+  | MDropFk t n => RFk t n
   end.
 (* the operation kinds that must appear on the target *)
 Definition kinds_of (A:schema) (m:mut) : list opkind :=
@@ -103,14 +129,18 @@ Definition kinds_of (A:schema) (m:mut) : list opkind :=
   | MDropColumn _ _ => [KDropColumn]
   | MFlipNullable _ _ => [KAlterNullable]
   | MChangeType _ _ _ => [KAlterType]
+  | MChangeDefault _ _ _ => [KAlterDefault]
   | MAddCons _ k => [if is_ix k then KAddIndex else KAddUq]
   | MDropCons t n => [if in_table t A (fun tb => match kfind k_name n (t_cons tb) with Some k => is_ix k | None => false end)
                       then KDropIndex else KDropUq]
   | MChangeCons _ k => if is_ix k then [KDropIndex; KAddIndex] else [KDropUq; KAddUq]
+  | MAddFk _ _ => [KAddFk]
+  | MDropFk _ _ => [KDropFk]
   end.
 (* the objects the change is about: the target; for a whole table also everything inside it *)
 Definition inside (tb:table) : list objref :=
-  RTable (t_name tb) :: map (fun c => RColumn (t_name tb) (c_name c)) (t_cols tb) ++ map (fun k => RCons (t_name tb) (k_name k)) (t_cons tb).
+  RTable (t_name tb) :: map (fun c => RColumn (t_name tb) (c_name c)) (t_cols tb) ++ map (fun k => RCons (t_name tb) (k_name k)) (t_cons tb)
+  ++ map (fun f => RFk (t_name tb) (f_name f)) (t_fks tb).
 Definition touches (A:schema) (m:mut) : list objref :=
   match m with
   | MAddTable t => inside t
@@ -144,4 +174,5 @@ Definition corr_C07 (i:c07_in) (out:c07_out) : bool :=
   list_forall2b (fun m r => cfg_eqb (fst m) (fst r) && ops_equiv (snd m) (snd r)) (model_C07 i) out.
 Definition inclass_C07 (i:c07_in) : bool :=
   wf_schemab (fst i) && applicable (snd i) (fst i) && wf_schemab (apply_mut (snd i) (fst i))
+  && defaults_ok (fst i) && defaults_ok (apply_mut (snd i) (fst i))
   && forallb (fun t => sigs_distinct (t_cons t)) (fst i) && forallb (fun t => sigs_distinct (t_cons t)) (apply_mut (snd i) (fst i)).
